@@ -82,6 +82,7 @@ func runStorage(r Round) *outcome {
 	parent, cancel := context.WithCancel(context.Background())
 	defer cancel()
 	st := memory.New(parent)
+	defer func() { defer func() { recover() }(); st.Close() }()
 	var mine counter
 	st.AddCleanHandler(func() error { mine.hit(); return nil })
 	for i := 0; i < r.p("keys"); i++ {
@@ -142,7 +143,7 @@ func runStorage(r Round) *outcome {
 		o.failf("C16/memory-storage/not-closed", "IsClosed()==false after Close")
 	}
 	if leaks != nil {
-		o.failf("C16/memory-storage/goroutine-leak/"+leakKeyPart(leaks[0]), "goroutines remain after Close: %v", leaks)
+		o.failf("C16/memory-storage/goroutine-leak/"+leakKeyPart(leaks[0]), "goroutines remain after Close: %s", leakMsg(leaks))
 	}
 	// later operations: every operation of the interface, none may panic
 	rc2 := newRace("memory-storage")
